@@ -155,12 +155,16 @@ CHECKS['C09'] = {
 
 CHECKS['C06'] = {
     'level': 'other',
-    'technique': 'bounded stand-in: ALTO export/import contract on real lxml over a structured grid + exhaustive order-conversion check (deductive part: see evidence when contracts/alto.py is present)',
-    'text': ('BOUNDED: export never raises; per block/line exactly one TextLine in order with String CONTENTs = transcription.split() (logical order on Arabic lines) in the '
+    'technique': ('hybrid: deductive slice proof (own VC generator + z3) of the print-space fold and margin arithmetic of to_altoxml_string for any number of blocks; '
+                  'bounded ALTO export/import contract on real lxml over a structured grid + exhaustive order-conversion check'),
+    'text': ('PROVED for all block lists: print space = bounding box of the text blocks (empty box for no blocks), non-negative size, integer attributes, and for integer '
+             'block coordinates the four margins and the print space tile the page.  '
+             'BOUNDED: export never raises; per block/line exactly one TextLine in order with String CONTENTs = transcription.split() (logical order on Arabic lines) in the '
              'aligned and the fallback branch; integer geometry for fractional coordinates; WC in [0,1]; only lines below min confidence dropped; print space = bounding box, '
              'margins tile the page up to integer truncation; re-import gives the same words - for 20 transcriptions (blank/NBSP/tab/thin/ideographic/zero-width spaces, '
              'out-of-charset, Arabic/Latin) x 5 logits kinds x structures. _reverse is a permutation and an involution on all strings of length <= 5 (6) over 9 symbols.'),
-    'note': 'Trusted: lxml, crop engine for word boxes (C10), CPython str.split/isspace; nothing outside the grid is decided.',
+    'note': ('Trusted: pyvc; slice mode drops the XML construction and the per-line loop of the block loop after a syntactic non-interference check; get_hwvh assumed to return '
+             'non-negative extents; lxml, crop engine for word boxes (C10), CPython str.split/isspace; the text clauses are decided on the grid only.'),
 }
 CHECKS['C07'] = {
     'level': 'other',
